@@ -7,7 +7,9 @@ Import ListNotations.
 Local Open Scope N_scope.
 
 (* ------------------------------------------------------------------------------------------ *)
-(* SessF for the functions of the implicit tick and of send_request *)
+(* SessF ("no session is lost") for the functions that never access the session cache.  With session
+   expiry every access (sess_get) may remove the entry it looks up, so send_request, the release of
+   pending requests and the implicit tick do NOT have this property any more. *)
 
 Definition QF (s s' : st) : Prop := SessF (hs s) (hs s').
 Lemma QF_refl s : QF s s. Proof. apply SessF_refl. Qed.
@@ -15,44 +17,8 @@ Lemma QF_trans a b d : QF a b -> QF b d -> QF a d. Proof. apply SessF_trans. Qed
 Lemma QF_same s s' : sessions (hs s') = sessions (hs s) -> QF s s'.
 Proof. apply SessF_same. Qed.
 
-Lemma QF_is_awaiting s na : QF s (fst (is_awaiting_session s na)).
-Proof.
-  unfold is_awaiting_session. pose proof (SessF_sess_get (hs s) na) as H.
-  destruct (sess_get (hs s) na) as [h se]. cbn [fst] in H. destruct se; exact H.
-Qed.
-
 Lemma sessions_push_pending h na q : sessions (push_pending h na q) = sessions h.
 Proof. unfold push_pending. destruct (alist_get na (pending h)); reflexivity. Qed.
-
-Lemma QF_send_request c s ct ext rid body now : QF s (fst (send_request c s ct ext rid body now)).
-Proof.
-  unfold send_request.
-  destruct (existsb (N.eqb (c_addr ct)) (cfg_listen c)); [apply QF_refl |].
-  set (na := c_naddr ct).
-  assert (Ha : QF s (fst (if has_challenge (hs s) na then (s, true) else is_awaiting_session s na))).
-  { destruct (has_challenge (hs s) na); [apply QF_refl | apply QF_is_awaiting]. }
-  destruct (if has_challenge (hs s) na then (s, true) else is_awaiting_session s na) as [s1 awaiting].
-  cbn [fst] in Ha. destruct awaiting; cbn [fst].
-  - eapply QF_trans; [exact Ha |]. apply QF_same. cbn [hs with_hs]. apply sessions_push_pending.
-  - pose proof (SessF_sess_get (hs s1) na) as Hg.
-    destruct (sess_get (hs s1) na) as [h2 se]. cbn [fst snd] in Hg.
-    eapply QF_trans; [exact Ha |]. unfold QF. eapply SessF_trans; [exact Hg |].
-    destruct se as [se |].
-    + rewrite encrypt_message_eq. cbn [fst hs with_hs send emit add_expected ar_insert set_active sessions].
-      apply SessF_sess_put.
-    + destruct (pop_pk (dr (with_hs s1 h2))) as [[[[cn r] aad] e0] d'] eqn:Ep.
-      apply SessF_same. reflexivity.
-Qed.
-
-Lemma QF_send_pending_requests c s na now : QF s (send_pending_requests c s na now).
-Proof.
-  unfold send_pending_requests. destruct (alist_get na (pending (hs s))) as [l |]; [| apply QF_refl].
-  eapply QF_trans; [| apply (fold_left_rel QF); [apply QF_refl | apply QF_trans |]].
-  - apply QF_same; reflexivity.
-  - intros a q. pose proof (QF_send_request c a (pq_contact q) (pq_ext q) (pq_rid q) (pq_body q) now) as H.
-    destruct (send_request c a (pq_contact q) (pq_ext q) (pq_rid q) (pq_body q) now) as [s' ok].
-    cbn [fst] in H. destruct ok; [exact H |]. destruct (pq_ext q); exact H.
-Qed.
 
 Lemma sessions_ar_remove_requests h na : sessions (fst (ar_remove_requests h na)) = sessions h.
 Proof. unfold ar_remove_requests. destruct (alist_get na (active h)); reflexivity. Qed.
@@ -100,27 +66,17 @@ Proof.
   destruct (N.eqb d' d); [apply QF_fire_request | apply QF_refl].
 Qed.
 
-Lemma QF_fire_due c now fuel s : QF s (fire_due c s now fuel).
-Proof.
-  apply fire_due_rel; [apply QF_refl | apply QF_trans | |].
-  - intros s0 d. unfold fire_req_of.
-    destruct (group_of d (nmap (hs s0))) as [| x [| y g]]; try apply QF_fire_group.
-    destruct (pop_rev (dr s0)) as [rv d'].
-    eapply QF_trans; [| apply QF_fire_group]. apply QF_same. reflexivity.
-  - intros s0 na t. unfold fire_challenge.
-    eapply QF_trans; [| apply QF_send_pending_requests]. apply QF_same. reflexivity.
-Qed.
-
 (* ------------------------------------------------------------------------------------------ *)
 (* new_session *)
 
-(* [SessN na se h h']: like SessD, but a session under [na] may additionally hold keys of [se], and a
-   session under [na] may be new (if there was none) - then it descends from [se]. *)
+(* [SessN na se h h']: like SessD, but a session under [na] may additionally hold keys of [se], or be a
+   new one descending from [se] (there was none under [na], or the one there had expired and was
+   purged). *)
 Definition SessN (na : naddr) (se : session) (h h' : hstate) : Prop :=
   forall na' se', In (na', se') (sessions h') ->
     (exists se0, In (na', se0) (sessions h) /\ s_counter se0 <= s_counter se' /\
        forall k, In k (sess_keys se') -> In k (sess_keys se0) \/ (na' = na /\ In k (sess_keys se)))
-    \/ (na' = na /\ (forall se0, ~ In (na, se0) (sessions h)) /\ sess_desc se se').
+    \/ (na' = na /\ sess_desc se se').
 
 Lemma SessD_SessN na se h h' : SessD h h' -> SessN na se h h'.
 Proof.
@@ -131,20 +87,19 @@ Qed.
 Lemma SessN_D na se a b d : SessN na se a b -> SessD b d -> SessN na se a d.
 Proof.
   intros HN HD na' se' Hin. destruct (HD _ _ Hin) as [se1 [H1 [H2 H3]]].
-  destruct (HN _ _ H1) as [[se0 [H4 [H5 H6]]] | [H4 [H5 H6]]].
+  destruct (HN _ _ H1) as [[se0 [H4 [H5 H6]]] | [H4 H6]].
   - left. exists se0. split; [exact H4 | split; [lia |]]. intros k Hk. apply H6. apply H2. exact Hk.
-  - right. split; [exact H4 | split; [exact H5 |]]. eapply sess_desc_trans; [exact H6 |]. split; assumption.
+  - right. split; [exact H4 |]. eapply sess_desc_trans; [exact H6 |]. split; assumption.
 Qed.
 
-Lemma SessD_F_N na se a b d : SessD a b -> SessF a b -> SessN na se b d -> SessN na se a d.
+Lemma SessD_N na se a b d : SessD a b -> SessN na se b d -> SessN na se a d.
 Proof.
-  intros HD HF HN na' se' Hin.
-  destruct (HN _ _ Hin) as [[se1 [H4 [H5 H6]]] | [H4 [H5 H6]]].
+  intros HD HN na' se' Hin.
+  destruct (HN _ _ Hin) as [[se1 [H4 [H5 H6]]] | [H4 H6]].
   - left. destruct (HD _ _ H4) as [se0 [H1 [H2 H3]]].
     exists se0. split; [exact H1 | split; [lia |]]. intros k Hk.
     destruct (H6 k Hk) as [H7 | H7]; [left; apply H2; exact H7 | right; exact H7].
-  - right. split; [exact H4 | split; [| exact H6]].
-    intros se0 H0. destruct (HF _ _ H0) as [se1 H1]. exact (H5 _ H1).
+  - right. split; [exact H4 | exact H6].
 Qed.
 
 (* the frame of new_session and of the steps built around it *)
@@ -165,31 +120,43 @@ Proof. destruct l; cbn; [auto |]. intros H; inversion H; auto. Qed.
 Lemma map_tl' {A B} (f : A -> B) (l : list A) : map f (tl l) = tl (map f l).
 Proof. destruct l; reflexivity. Qed.
 
+Lemma NS_Quiet_before na se a b d : Quiet a b -> NS na se b d -> NS na se a d.
+Proof.
+  intros [[E1 [D1 U1]] O1] [E2 [N2 [O2 U2]]]. split; [congruence | split; [| split]].
+  - eapply SessD_N; eauto.
+  - eapply OutsExt_trans; eauto.
+  - intros H. apply U2. apply U1. exact H.
+Qed.
+
 Lemma NS_new_session c s na se skip now : NS na se s (new_session c s na se skip now).
 Proof.
   unfold new_session.
-  pose proof (QH_sess_get (hs s) na) as Hg. pose proof (sess_get_got (hs s) na) as Hgot.
-  pose proof (sess_get_In (hs s) na) as Hin. pose proof (sess_get_snd (hs s) na) as Hsnd.
-  destruct (sess_get (hs s) na) as [h1 cur]. cbn [fst snd] in Hg, Hgot, Hin, Hsnd.
+  eapply NS_Quiet_before; [apply QuietF_Quiet; apply (QuietF_remove_expired c s) |].
+  generalize (remove_expired_sessions c s). clear s. intros s.
+  pose proof (QH_sess_get c (hs s) na) as Hg. pose proof (sess_get_got c (hs s) na) as Hgot.
+  pose proof (sess_get_stored c (hs s) na) as Hst.
+  destruct (sess_get c (hs s) na) as [h1 cur]. cbn [fst snd] in Hg, Hgot, Hst.
   destruct cur as [cs |].
   - (* Session::update *)
     set (cs' := {| s_enc := s_enc se; s_dec := s_dec se; s_old := Some (s_enc cs, s_dec cs);
-                   s_await := s_await se; s_counter := s_counter cs |}).
+                   s_await := s_await se; s_counter := s_counter cs; s_used := s_used cs |}).
     assert (H1 : NS na se s (with_hs s (sess_put h1 na cs'))).
     { split; [cbn; apply Hg | split; [| split; [apply OutsExt_same; reflexivity |]]].
       2:{ destruct Hg as [_ [_ Ug]]. intros HU. apply Ug in HU. unfold SessUniq in *.
           cbn [hs with_hs sess_put sessions set_sessions]. rewrite alist_set_keys; [exact HU |].
           apply in_map_iff. exists (na, cs). split; [reflexivity | apply Hgot; reflexivity]. }
+      destruct (Hst _ eq_refl) as [s00 [Eg [_ Et]]]. subst cs.
       intros na' se' H. cbn [hs with_hs sess_put sessions set_sessions] in H.
       apply In_alist_set in H. destruct H as [H | H].
-      - inversion H; subst na' se'. left. exists cs. split; [apply Hin; apply Hgot; reflexivity |].
+      - inversion H; subst na' se'. left. exists s00. split; [apply alist_get_In; exact Eg |].
         split; [cbn; lia |]. intros k Hk. unfold sess_keys in Hk. cbn in Hk.
         destruct Hk as [Hk | [Hk | [Hk | [Hk | []]]]]; subst k.
         + right. split; [reflexivity | left; reflexivity].
         + right. split; [reflexivity | right; left; reflexivity].
         + left. left. reflexivity.
         + left. right. left. reflexivity.
-      - left. exists se'. split; [apply Hin; exact H | split; [lia |]]. intros k Hk. left. exact Hk. }
+      - left. destruct Hg as [_ [Dg _]]. destruct (Dg _ _ H) as [se0 [H1 [H2 H3]]].
+        exists se0. split; [exact H1 | split; [exact H3 |]]. intros k Hk. left. apply H2. exact Hk. }
     eapply NS_Quiet_after; [exact H1 |].
     destruct (fix_d2a c).
     + eapply Quiet_trans; [apply Quiet_replay | apply Quiet_send_pending_requests].
@@ -198,16 +165,15 @@ Proof.
     split; [cbn; apply Hg | split; [| split; [apply OutsExt_same; reflexivity |]]].
     2:{ destruct Hg as [_ [_ Ug]]. intros HU. apply Ug in HU. unfold SessUniq in *.
         cbn [hs with_hs sess_insert sessions set_sessions].
-        pose proof (to_back_NoDup na se _ HU) as HN.
+        pose proof (to_back_NoDup na (touch se (cfg_clock c)) _ HU) as HN.
         destruct (Nat.ltb _ _); [| exact HN]. rewrite map_tl'. apply NoDup_tl. exact HN. }
     intros na' se' H. cbn [hs with_hs sess_insert sessions set_sessions] in H.
-    assert (H' : In (na', se') (alist_remove na (sessions h1) ++ [(na, se)])).
+    assert (H' : In (na', se') (alist_remove na (sessions h1) ++ [(na, touch se (cfg_clock c))])).
     { destruct (Nat.ltb _ _); [apply tl_In |]; exact H. }
     apply in_app_or in H'. destruct H' as [H' | [H' | []]].
-    + apply In_alist_remove in H'. left. exists se'. split; [apply Hin; exact H' | split; [lia |]].
-      intros k Hk. left. exact Hk.
-    + inversion H'; subst na' se'. right. split; [reflexivity | split; [| apply sess_desc_refl]].
-      intros se0 H0. symmetry in Hsnd. exact (alist_get_None _ _ Hsnd _ H0).
+    + apply In_alist_remove in H'. left. destruct Hg as [_ [Dg _]]. destruct (Dg _ _ H') as [se0 [H1 [H2 H3]]].
+      exists se0. split; [exact H1 | split; [exact H3 |]]. intros k Hk. left. apply H2. exact Hk.
+    + inversion H'; subst na' se'. right. split; [reflexivity | apply touch_desc].
 Qed.
 
 (* ------------------------------------------------------------------------------------------ *)
@@ -267,6 +233,7 @@ Definition msg_out_ok (h : hstate) (na : naddr) (n : nonce) (aad : N) (ct : ctex
   | OWire _ _ => False
   | OEvent (HWhoAreYou na' n') => na' = na /\ n' = n
   | OEvent (HRequestFailed _ _) => True
+  | OEvent (HExpiredSessions _) => True
   | OEvent (HRequest na' rid body) => na' = na /\ Delivered h na n aad ct (MReq rid body)
   | OEvent (HResponse na' rid rb) => na' = na /\ Delivered h na n aad ct (MResp rid rb)
   | OEvent (HEstablished e a inc) =>
@@ -291,11 +258,12 @@ Qed.
 Lemma handle_message_frame c s na n aad ct now : MF na n aad ct s (handle_message c s na n aad ct now).
 Proof.
   unfold MF, handle_message.
-  pose proof (QH_sess_get (hs s) na) as Hg. pose proof (sess_get_got (hs s) na) as Hgot.
-  pose proof (sess_get_snd (hs s) na) as Hsnd.
-  destruct (sess_get (hs s) na) as [h1 se]. cbn [fst snd] in Hg, Hgot, Hsnd.
+  pose proof (QH_sess_get c (hs s) na) as Hg. pose proof (sess_get_got c (hs s) na) as Hgot.
+  pose proof (sess_get_stored c (hs s) na) as Hst.
+  destruct (sess_get c (hs s) na) as [h1 se]. cbn [fst snd] in Hg, Hgot, Hst.
   destruct se as [se |].
-  2:{ split; [apply QH_refl |]. apply OutsExt_emit. cbn. auto. }
+  2:{ split; [exact Hg |]. exists [OEvent (HWhoAreYou na n)]. split; [reflexivity |].
+      constructor; [cbn; auto | constructor]. }
   pose proof (decrypt_message_desc se n aad ct) as Hd.
   pose proof (decrypt_message_Some se n aad ct) as Hm.
   destruct (decrypt_message se n aad ct) as [se' m]. cbn [fst] in Hd.
@@ -306,7 +274,8 @@ Proof.
   assert (Hin2 : In (na, se') (sessions (hs s2))).
   { cbn [s2 hs with_hs sess_put sessions set_sessions]. apply alist_set_has. }
   assert (Hdel : forall m0, m = Some m0 -> Delivered (hs s) na n aad ct m0).
-  { intros m0 ->. destruct (Hm se' m0 eq_refl) as [k [Hk Hc]]. exists se, k. auto. }
+  { intros m0 ->. destruct (Hm se' m0 eq_refl) as [k [Hk Hc]].
+    destruct (Hst _ eq_refl) as [s00 [Eg [_ Et]]]. rewrite Et in Hk. exists s00, k. auto. }
   (* combine: s -> s2 (nothing emitted) -> s' *)
   assert (Hcomb : forall s', QH (hs s2) (hs s') -> OutsExt (msg_out_ok (hs s) na n aad ct) s2 s' ->
             QH (hs s) (hs s') /\ OutsExt (msg_out_ok (hs s) na n aad ct) s s').
@@ -324,7 +293,7 @@ Proof.
     destruct (s_await se') as [arid |]; [| exact Hresp].
     destruct (N.eqb rid arid); [| exact Hresp].
     set (se'' := {| s_enc := s_enc se'; s_dec := s_dec se'; s_old := s_old se'; s_await := None;
-                    s_counter := s_counter se' |}).
+                    s_counter := s_counter se'; s_used := s_used se' |}).
     set (s3a := with_hs s2 (sess_put (hs s2) na se'')).
     assert (H3a : QuietF s2 s3a).
     { apply QuietF_with_hs. eapply QH_sess_put; [exact Hin2 |]. split; [apply incl_refl | cbn; lia]. }
